@@ -1,4 +1,5 @@
 import SonicModel.Lemmas.StrInplaceBase
+import SonicModel.Lemmas.SpecBound
 /-
   The in-place decoder (Impl/StrInplace.lean) on a padded buffer: no access outside the buffer, the bytes written are the
   specification's decoding, nothing in front of the literal and nothing from the final reader position on is changed.
@@ -27,7 +28,7 @@ structure Inv (buf mem0 mem : Buf) (sdst src dst : Nat) : Prop where
 /-- `acc` = what has been decoded so far, `v` = what the scalar decoder says from the reader on -/
 def Post (buf mem0 : Buf) (sdst : Nat) (acc : List UInt8) (v : Option (List UInt8 × Nat)) : Res → Prop
   | .ok mem' cnt e => ∃ tail, v = some (tail, e) ∧ bytes mem' sdst (sdst + cnt) = acc ++ tail ∧ mem'.size = buf.size ∧
-        (∀ k, k < sdst → mem'[k]? = mem0[k]?) ∧ (∀ k, e ≤ k → mem'[k]? = buf[k]?)
+        (∀ k, k < sdst → mem'[k]? = mem0[k]?) ∧ (∀ k, e ≤ k → mem'[k]? = buf[k]?) ∧ sdst + cnt < e
   | .err _ => v = none
   | .fault => False
   | .fuel => False
@@ -36,8 +37,8 @@ theorem Post_map (buf mem0 : Buf) (sdst : Nat) (acc m : List UInt8) (v : Option 
     (h : Post buf mem0 sdst (acc ++ m) v r) : Post buf mem0 sdst acc (v.map (fun x => (m ++ x.1, x.2))) r := by
   cases r with
   | ok mem' cnt e =>
-    obtain ⟨tail, hv, hb, hs, hf, hg⟩ := h
-    exact ⟨m ++ tail, by rw [hv]; rfl, by rw [hb, List.append_assoc], hs, hf, hg⟩
+    obtain ⟨tail, hv, hb, hs, hf, hg, hc⟩ := h
+    exact ⟨m ++ tail, by rw [hv]; rfl, by rw [hb, List.append_assoc], hs, hf, hg, hc⟩
   | err c => simp only [Post] at h ⊢; rw [h]; rfl
   | fault => exact h
   | fuel => exact h
@@ -340,7 +341,7 @@ theorem loops_spec (lossy : Bool) (buf mem0 : Buf) (len sdst : Nat) (hp : Padded
           (by rw [hinv.ag q q1]; exact hcq1)
         rw [hcw]
         simp only [Post]
-        refine ⟨bytes buf src q, bv2 hqf.2 hqf.1, ?_, by rw [hms]; exact hinv.size, ?_, ?_⟩
+        refine ⟨bytes buf src q, bv2 hqf.2 hqf.1, ?_, by rw [hms]; exact hinv.size, ?_, ?_, by have := hinv.lo; have := hinv.hi; omega⟩
         · have hlo := hinv.lo
           have hhi := hinv.hi
           rw [show sdst + (dst + (q - src) - sdst) = dst + (q - src) by omega,
@@ -464,7 +465,7 @@ theorem scan_spec (lossy : Bool) (buf mem0 : Buf) (len sdst : Nat) (hp : Padded 
       simp at hc2
     by_cases hqf : q < b ∧ ¬ (u < q)
     · simp only [hqf, not_false_eq_true, and_self, if_true, Post]
-      refine ⟨bytes buf src q, bv2 hqf.2 hqf.1, ?_, h0, fun _ _ => trivial, fun k hk => hag k (by omega)⟩
+      refine ⟨bytes buf src q, bv2 hqf.2 hqf.1, ?_, h0, fun _ _ => trivial, fun k hk => hag k (by omega), by omega⟩
       rw [show sdst + (q - sdst) = q by omega, bytes_ext mem0 buf sdst q (fun k hk _ => hag k hk)]
       exact bytes_append buf sdst src q hss q1 (by omega)
     · simp only [hqf, if_false]
@@ -541,18 +542,79 @@ theorem Post_unpack (buf mem0 : Buf) (i : Nat) (v : Option (List UInt8 × Nat)) 
     match r with
     | .ok mem cnt e =>
       ∃ bs, v = some (bs, e) ∧ bytes mem i (i + cnt) = bs ∧ mem.size = buf.size ∧
-        (∀ k, k < i → mem[k]? = mem0[k]?) ∧ (∀ k, e ≤ k → mem[k]? = buf[k]?)
+        (∀ k, k < i → mem[k]? = mem0[k]?) ∧ (∀ k, e ≤ k → mem[k]? = buf[k]?) ∧ i + cnt < e
     | .err _ => v = none
     | .fault => False
     | .fuel => False := by
   intro h
   cases r with
   | ok mem cnt e =>
-    obtain ⟨tail, h1, h2, h3, h4, h5⟩ := h
-    exact ⟨tail, h1, by simpa using h2, h3, h4, h5⟩
+    obtain ⟨tail, h1, h2, h3, h4, h5, h6⟩ := h
+    exact ⟨tail, h1, by simpa using h2, h3, h4, h5, h6⟩
   | err c => exact h
   | fault => exact h
   | fuel => exact h
+
+/-- string literals of the padded text, one after the other: each starts inside the text, at or behind the end of the one
+    before, and is decodable; with the decodings -/
+inductive Chain (lossy : Bool) (t : Buf) : Nat → List Nat → List (List UInt8 × Nat) → Prop
+  | nil (lb : Nat) : Chain lossy t lb [] []
+  | cons (lb i : Nat) (bs : List UInt8) (e : Nat) (rest : List Nat) (ds : List (List UInt8 × Nat)) :
+      lb ≤ i → i ≤ t.size → Spec.stringS lossy (pad t) i = some (bs, e) → Chain lossy t e rest ds →
+      Chain lossy t lb (i :: rest) ((bs, e) :: ds)
+
+/-- **all literals of a document decoded in place, in one buffer**: whatever chain of literals of the padded text is decoded
+    in order — every run working on what the runs before it have left — each run terminates without an access outside the
+    buffer and reports the length and the end the specification gives for that literal in the ORIGINAL text, and when all
+    are done every literal's decoding stands at its place in the final buffer (later runs have not disturbed earlier
+    results), while everything in front of the first literal's lower bound is as it was -/
+theorem runMany_spec (lossy : Bool) (t : Buf) : ∀ (is : List Nat) (ds : List (List UInt8 × Nat)) (lb : Nat) (mem0 : Buf),
+    Chain lossy t lb is ds → mem0.size = (pad t).size → (∀ k, lb ≤ k → mem0[k]? = (pad t)[k]?) →
+    ∃ memF, runMany lossy mem0 is = some (memF, ds.map (fun d => (d.1.length, d.2))) ∧ memF.size = (pad t).size ∧
+      (∀ k, k < lb → memF[k]? = mem0[k]?) ∧
+      (∀ n (hn : n < is.length) (hd : n < ds.length), bytes memF is[n] (is[n] + ds[n].1.length) = ds[n].1) := by
+  intro is
+  induction is with
+  | nil =>
+    intro ds lb mem0 hc h0 _
+    cases hc
+    exact ⟨mem0, rfl, h0, fun _ _ => rfl, fun n hn _ => by simp at hn⟩
+  | cons i rest ih =>
+    intro ds lb mem0 hc h0 hag
+    cases hc with
+    | cons _ _ bs e _ ds' hlb hi hs hrest =>
+      have hrun := Post_unpack (pad t) mem0 i _ _ (run_spec_mem lossy t mem0 i hi h0 (fun k hk => hag k (by omega)))
+      rw [hs] at hrun
+      cases hr : run lossy mem0 i with
+      | err c => rw [hr] at hrun; cases hrun
+      | fault => rw [hr] at hrun; exact hrun.elim
+      | fuel => rw [hr] at hrun; exact hrun.elim
+      | ok mem1 cnt e1 =>
+        rw [hr] at hrun
+        obtain ⟨bs1, h1, h2, h3, h4, h5, h6⟩ := hrun
+        simp only [Option.some.injEq, Prod.mk.injEq] at h1
+        obtain ⟨hb, he⟩ := h1
+        subst hb; subst he
+        obtain ⟨memF, hm1, hm2, hm3, hm4⟩ := ih ds' e mem1 hrest h3 h5
+        have hele : e ≤ (pad t).size := Spec.stringS_le lossy (pad t) i (bs, e) hs
+        have hcnt : cnt = bs.length := by
+          have := congrArg List.length h2
+          rw [bytes_length mem1 i (i + cnt) (by omega) (by rw [h3]; omega)] at this
+          omega
+        refine ⟨memF, ?_, hm2, ?_, ?_⟩
+        · simp only [runMany, hr, hm1, Option.map_some, List.map_cons, hcnt]
+        · intro k hk
+          rw [hm3 k (by omega)]
+          exact h4 k (by omega)
+        · intro n hn hd
+          cases n with
+          | zero =>
+            simp only [List.getElem_cons_zero]
+            rw [← hcnt, ← h2]
+            exact bytes_ext _ _ _ _ (fun k _ hk2 => hm3 k (by omega))
+          | succ n =>
+            simp only [List.getElem_cons_succ]
+            exact hm4 n (by simpa using hn) (by simpa using hd)
 
 end StrIn
 end Sonic
